@@ -361,6 +361,10 @@ pub fn run(tier: Tier) -> i32 {
                     ("@name: \"other\";\n@name: \"{}\";\nx", vec![]),
                     ("@name: (\"{}\");\n@description: \"{}\";\nx", vec![]),
                     ("// c\n// d\n@description: \"{}\";\nx", vec!["c", "d"]),
+                    ("@name: i5;\n@name: \"{}\";\nx", vec![]),
+                    ("// c\n@name: \"{}\";\n@name: [i1];\nx", vec!["c"]),
+                    ("@name: none;\n@k: i1;\n@name: \"{}\";\n@name: \"{}\";\nx", vec![]),
+                    ("@description: i5;\n@description: \"{}\";\n// c\n// d\nx", vec!["c", "d"]),
                     ("@description: \"{}\";\n@name: \"{}\";\n// c\nx\n// d", vec!["c", "d"]),
                 ] {
                     let text = tmpl.replace("{}", c);
